@@ -92,8 +92,11 @@ def gen_database(rng, profile):
             kinds.append(rng.choice(["ECU-SHARED-DATA", "FUNCTIONAL-GROUP", "BASE-VARIANT", "BASE-VARIANT", "ECU-VARIANT"]))
         kinds.sort(key=CAT_ORDER.index)
         cont = {"name": cname, "uid": g.new_uid(), "layers": []}
-        for k in kinds:
-            L = {"name": lnames[li], "kind": k, "cont": cname, "uid": g.new_uid(), "imports": [], "parent": None,
+        # the usual naming scheme gives one layer the short name of its container (somersault/somersault): the
+        # CONTAINER and LAYER fragments then differ only in their doc type
+        twin = rng.randrange(len(kinds)) if rng.random() < 0.5 else -1
+        for ki, k in enumerate(kinds):
+            L = {"name": cname if ki == twin else lnames[li], "kind": k, "cont": cname, "uid": g.new_uid(), "imports": [], "parent": None,
                  "dops": [], "structs": [], "eopfs": [], "muxs": [], "tables": [], "requests": [], "pos": [], "neg": [],
                  "services": [], "dcrefs": []}
             li += 1
